@@ -180,6 +180,7 @@ def main():
     # ---- 2. random machines with failing fan-outs (nested, Retry, Catch) under random schedules
     sem_cases, sem_desc = [], []
     infos = []
+    skipped_order_dependent = 0
     for _ in range(700 if thorough else 150):
         g = cp.Gen(rng, fanout=True, max_depth=3 if thorough else 2)
         definition = g.machine()
@@ -204,6 +205,9 @@ def main():
         hcases.append("([%s], %s)" % ("; ".join(str(x) for x in info.xs), ec.effects_term(info)))
         gdesc.append(d)
         rec = info.samples[-1][info.arns[0]]["record"] if info.samples else None
+        if ec.order_dependent_tasks(info):
+            skipped_order_dependent += 1         # the monitors still apply; only the comparison with the semantics is not meaningful
+            rec = None
         if rec and rec.get("status") in ("SUCCEEDED", "FAILED"):
             try:
                 final = ("SUCCEEDED", cp.canon(json.loads(rec["output"]))) if rec["status"] == "SUCCEEDED" else ("FAILED", rec.get("error"))
@@ -230,7 +234,7 @@ def main():
                 continue
             ck.violation("a machine with a failing fan-out did not end with the status/output the States Language defines under a random schedule: %s"
                          % json.dumps({k: d[k] for k in ("schedule", "definition", "observed")})[:1500], {"case": d, "monitor": "c01_oracle"})
-    ck.add_group("random_machines_vs_semantics", len(sem_cases), len(sem_cases), sem_desc[:1])
+    ck.add_group("random_machines_vs_semantics", len(sem_cases), len(sem_cases), sem_desc[:1], not_compared_because_task_outcomes_depend_on_the_schedule=skipped_order_dependent)
 
     mon = [("c02", "PyStr Cases TraceSpec C02Oracle", "c02_case", c2, ["c02_record_ok", "c02_notes_case_ok", "c02_ended_ok", "c02_agree_ok"], 40),
            ("c03", "PyStr Cases TraceSpec C02Oracle", "c03_case", c3, ["c03_order_ok", "c03_once_ok", "c03_carried_ok", "c03_drained_ok"], 25),
@@ -249,7 +253,8 @@ def main():
     ck.cov["rule"] = ("one Parallel / Map state with n Task branches x every subset of failing branches x every order of the replies (exhaustive n <= 3, with and without Catch), sampled n up to 7 with "
                       "MaxConcurrency and random schedules; random machines with nested fan-outs, Retry and Catch and 30%% task errors under random schedules compared with the semantics; "
                       "non-trivial = runs in which at least one branch fails")
-    ck.assumptions = ["distinct error names per branch make the winning failure observable", "when several branches of one fan-out fail the semantics accepts any of their errors (the model says which: the first handled)"]
+    ck.assumptions = ["distinct error names per branch make the winning failure observable", "when several branches of one fan-out fail the semantics accepts any of their errors (the model says which: the first handled)",
+                      "a run in which one (function, payload) is requested from two places with differing outcomes per attempt is not compared with the semantics (which place gets which outcome depends on the schedule)"]
     ck.finish(BASE_TRUST + TRUST)
 
 
